@@ -3,7 +3,8 @@
 #ifndef VERIF_CSROBJ_H
 #define VERIF_CSROBJ_H
 typedef double DT_;
-typedef struct { Index size; const void *elements; } DVEC;              /* DenseVector: size() and elements() identity */
+typedef struct { Index size; const void *elements; } DVEC;              /* also DenseVectorBlocked: size() in blocks, elements identity */
+              /* DenseVector: size() and elements() identity */
 typedef struct { Index rows, columns, nnz; const void *val, *col_ind, *row_ptr; } CSRM;
 typedef CSRM SELF_T;
 /* ghost record of what the method did */
@@ -19,6 +20,22 @@ __CPROVER_requires(r != x)
 __CPROVER_assigns(n_kernel, k_r, k_x, k_y, k_val, k_ci, k_rp, k_a, k_b, k_rows, k_cols, k_nnz, k_transposed)
 __CPROVER_ensures(n_kernel == __CPROVER_old(n_kernel) + 1 && k_r == r && k_x == x && k_y == y && k_val == val && k_ci == col_ind && k_rp == row_ptr
                   && k_a == a && k_b == b && k_rows == rows && k_cols == columns && k_nnz == used_elements && k_transposed == transposed)
+;
+/* the BCSR kernels (block sizes are template parameters of the dispatcher call; the transposed kernel divides by a) */
+void Apply_bcsr(const void * r, const DT_ a, const void * const x, const DT_ b, const void * const y, const void * const val,
+  const void * const col_ind, const void * const row_ptr, const Index rows, const Index columns, const Index used_elements)
+__CPROVER_requires(r != x)
+__CPROVER_assigns(n_kernel, k_r, k_x, k_y, k_val, k_ci, k_rp, k_a, k_b, k_rows, k_cols, k_nnz, k_transposed)
+__CPROVER_ensures(n_kernel == __CPROVER_old(n_kernel) + 1 && k_r == r && k_x == x && k_y == y && k_val == val && k_ci == col_ind && k_rp == row_ptr
+                  && k_a == a && k_b == b && k_rows == rows && k_cols == columns && k_nnz == used_elements && k_transposed == 0)
+;
+void Apply_bcsr_transposed(const void * r, const DT_ a, const void * const x, const DT_ b, const void * const y, const void * const val,
+  const void * const col_ind, const void * const row_ptr, const Index rows, const Index columns, const Index used_elements)
+__CPROVER_requires(__CPROVER_fabs(a) >= EPS)      /* precondition of the transposed block kernel (it computes b/a) */
+__CPROVER_requires(r != x)
+__CPROVER_assigns(n_kernel, k_r, k_x, k_y, k_val, k_ci, k_rp, k_a, k_b, k_rows, k_cols, k_nnz, k_transposed)
+__CPROVER_ensures(n_kernel == __CPROVER_old(n_kernel) + 1 && k_r == r && k_x == x && k_y == y && k_val == val && k_ci == col_ind && k_rp == row_ptr
+                  && k_a == a && k_b == b && k_rows == rows && k_cols == columns && k_nnz == used_elements && k_transposed == 1)
 ;
 void DV_copy(DVEC * dst, const DVEC * src)
 __CPROVER_assigns(n_copy, c_dst, c_src)
